@@ -486,7 +486,8 @@ func newAPI() *serix.API {
 	must(a.RegisterTypeSettings(UniqueNames{}, ts.WithLengthPrefixType(serix.LengthPrefixTypeAsUint16).WithArrayRules(&serix.ArrayRules{
 		ValidationMode: serializer.ArrayValidationModeNoDuplicates,
 	})))
-	must(a.RegisterTypeSettings(Dict{}, ts.WithLengthPrefixType(serix.LengthPrefixTypeAsUint16)))
+	// (an explicit "no lexical ordering" on a map type: maps are encoded in byte-lexical key order whatever the setting says)
+	must(a.RegisterTypeSettings(Dict{}, ts.WithLengthPrefixType(serix.LengthPrefixTypeAsUint16).WithLexicalOrdering(false)))
 	must(a.RegisterTypeSettings(U16s{}, ts.WithLengthPrefixType(serix.LengthPrefixTypeAsByte)))
 	sharedBase := ts.WithLengthPrefixType(serix.LengthPrefixTypeAsByte).WithMaxLen(4)
 	must(a.RegisterTypeSettings(SharedSlice{}, sharedBase))
